@@ -153,10 +153,21 @@ def magnitude_variants(rng, inst):
     out.append(t)
     t = dict(inst)
     j = rng.randrange(n)
-    k = rng.choice([2**20, 2**31, 2**40, 2**44])
+    nz = [abs(v) for v in inst["c"] if v] or [1]
+    # judged: cost ratios max|c| / min nonzero |c| <= 1e6 (a float simplex with absolute tolerances is only claimed for well-scaled
+    # cost vectors: coordinator's decision on commit 39737f0, which scales the objective row)
+    ks = [k for k in [2**4, 2**10, 10**4, 2**16] if max(max(nz), abs(inst["c"][j]) * k + 1) <= 10**6 * min(nz)] or [1]
+    k = rng.choice(ks)
     t["c"] = list(inst["c"])
-    t["c"][j] = t["c"][j] * k + rng.choice([0, 1, -1])           # huge and tiny in one sum
+    t["c"][j] = t["c"][j] * k + rng.choice([0, 1, -1])
     t["family"] = "magnitude:one-coefficient"
+    out.append(t)
+    # observation only (never a VIOLATION): huge and tiny costs in one vector (ratio 2^40..2^44), see corpus/C04/observations
+    t = dict(inst)
+    k = rng.choice([2**31, 2**40, 2**44])
+    t["c"] = list(inst["c"])
+    t["c"][j] = t["c"][j] * k + rng.choice([0, 1, -1])
+    t["family"] = "observation:cost-ratio"
     out.append(t)
     t = dict(inst)
     i = rng.randrange(len(inst["b"]))
